@@ -344,6 +344,27 @@ func GenP(r *rand.Rand, seed uint64, nBlocks, maxTxs int, prof Profile) *History
 			}
 		}
 		for i := 0; i < ntx; i++ {
+			if prof.FailBoost && r.IntN(100) < 8 {
+				// a failed multi-message tx deploys a library and type-checks a dependent of it; later txs
+				// of the SAME block deploy another library at that path and a dependent of the new one
+				k := 500000 + nextPkg*7 + r.IntN(7)
+				nextPkg++
+				lib := fmt.Sprintf("gno.land/p/verif/lib%d", k)
+				libSrc := func(fn string) string { return fmt.Sprintf("package lib%d\n\nfunc %s() int { return %d }\n", k, fn, r.IntN(100)) }
+				user := func(name, fn string, fail bool) MsgSpec {
+					body := fmt.Sprintf("package %s\n\nimport \"%s\"\n\nvar X = lib%d.%s()\n", name, lib, k, fn)
+					if fail {
+						body += "\nfunc init() { panic(\"dependent fails\") }\n"
+					}
+					return MsgSpec{Kind: "addpkg", Pkg: "gno.land/r/verif/" + name, Body: body}
+				}
+				signer := pick(r, Users)
+				blk = append(blk,
+					TxSpec{Signer: signer, Gas: 400_000_000, Fee: 1_000_000, Label: "fail:lib-then-failing-dependent", Msgs: []MsgSpec{{Kind: "addpkg", Pkg: lib, Body: libSrc("A")}, user(fmt.Sprintf("usera%d", k), "A", true)}},
+					TxSpec{Signer: pick(r, Users), Gas: 200_000_000, Fee: 1_000_000, Label: "lib-redeployed-after-failed-tx", Msgs: []MsgSpec{{Kind: "addpkg", Pkg: lib, Body: libSrc("B")}}},
+					TxSpec{Signer: pick(r, Users), Gas: 200_000_000, Fee: 1_000_000, Label: "dependent-of-redeployed-lib", Msgs: []MsgSpec{user(fmt.Sprintf("userb%d", k), "B", false)}})
+				continue
+			}
 			if prof.FailBoost && r.IntN(100) < 45 {
 				blk = append(blk, failTx(r))
 				continue
